@@ -1,2 +1,3 @@
 CONSTANTS
   N = 3
+  Offsets = {0, 13}
